@@ -17,5 +17,7 @@ else:
 m['needs_to_manifest'] = needs
 m['check_result'] = {'command': 'tools/eval_seeded.sh %s %s   (= ./check %s --tier quick against a copy of /repo with patch.diff applied)' % (sid, prop, prop),
                      'exit': ev['exit'], 'outcome': outcome, 'harnesses_reporting': harn, 'labels': labels, 'summary': ev['summary']}
+if 'evalsub' in evalp:
+    m['check_result']['note'] = 'evalsub: quick check restricted with --only to a subset of its harnesses (session time limit); the full quick check runs a superset'
 json.dump(m, open(mp, 'w'), indent=1)
 print('| %s | %s | %s | %s | %s |' % (sid, needs, outcome, ', '.join(harn[:4]) + (' …' if len(harn) > 4 else ''), ', '.join(labels)))
